@@ -53,3 +53,21 @@ def compare(rec, m, selection, default=False, expand=None, visit=None, relations
                   f'{label} scope={"default" if default else selection} expand={model_expand}: {fmt(d, 500)}',
                   {'path': d[0], 'expected': jsonable(d[1]), 'actual': jsonable(d[2])})
     return False
+
+
+def canon_real(o):
+    """Canonical form of a *real* observation for real-vs-real comparisons: lists whose order no statement
+    fixes (relation targets, relation_map rows, frames, the ILI listing) are sorted."""
+    import json
+    for kind in ('senses', 'synsets'):
+        for d in o[kind].values():
+            if isinstance(d, dict):
+                for f in ('related', 'related_synsets', 'frames'):
+                    if f in d:
+                        d[f] = sorted(d[f])
+                if 'relations' in d:
+                    d['relations'] = {k: sorted(v) for k, v in d['relations'].items()}
+                if 'relmap' in d:
+                    d['relmap'] = sorted(d['relmap'], key=lambda r: json.dumps(r, sort_keys=True, default=str))
+    o['ilis'] = sorted(o['ilis'], key=lambda r: json.dumps(r, default=str))
+    return o
